@@ -171,6 +171,11 @@ func init() {
 					Case: "enc - " + v.String(), Key: "enc-fails:" + tname(v.Ty)})
 				continue
 			}
+			if t := schema.Types[v.Ty]; t.Frame != nil && !r.PreChanged {
+				// self-computed fields are compared against their CORRECT values (independent count / reference checksum)
+				checkFrameLen(o, t, v, r, "C01")
+				checkFrameCks(o, t, v, r)
+			}
 			rest := g.prefix()
 			data := append(append([]byte{}, r.Appended...), rest...)
 			d := corrDec(o, v.Ty, data, g.mode())
